@@ -159,6 +159,10 @@ deriving Repr, DecidableEq
 
 inductive Pred where
   | hasAttr (a : String) | attrEq (a v : String) | notAttr (a : String) | hasChild (n : String)
+  /-- `[k]` = `[position() = k]` -/
+  | index (k : Nat)
+  /-- `[last()]` -/
+  | last
 deriving Repr, DecidableEq
 
 structure Step where
@@ -184,11 +188,13 @@ def parseTest (s : String) : NodeTest :=
   else if s.startsWith "@" then .attr (s.drop 1).toString
   else .name s
 
-/-- `@a]` · `@a='v']` · `not(@a)]` · `n]` -/
+/-- `@a]` · `@a='v']` · `not(@a)]` · `n]` · `3]` · `last()]` -/
 def parsePred (s : String) : Option Pred :=
   if ¬ s.endsWith "]" then none else
   let b := (s.dropEnd 1).toString
-  if b.startsWith "not(@" ∧ b.endsWith ")" then some (.notAttr ((b.drop 5).dropEnd 1).toString)
+  if b = "last()" then some .last
+  else if b.toNat?.isSome then b.toNat?.map .index
+  else if b.startsWith "not(@" ∧ b.endsWith ")" then some (.notAttr ((b.drop 5).dropEnd 1).toString)
   else if b.startsWith "@" then
     match (b.drop 1).toString.splitOn "='" with
     | [a] => some (.hasAttr a)
@@ -231,14 +237,29 @@ def testNode (t : NodeTest) (n : CNode) : Bool :=
   | .pi => n.kind = .pi
   | .node => n.kind = .elem ∨ n.kind = .text ∨ n.kind = .comment ∨ n.kind = .pi
 
-def evalPred (d : Doc) (n : CNode) : Pred → Bool
+/-- a predicate on `n`, which is the `pos`-th (1-based) of `size` candidates of its step -/
+def evalPred (d : Doc) (n : CNode) (pos size : Nat) : Pred → Bool
   | .hasAttr a => (d.attrsOf n).any fun c => c.name = a
   | .attrEq a v => (d.attrsOf n).any fun c => c.name = a ∧ c.value = v
   | .notAttr a => ! (d.attrsOf n).any fun c => c.name = a
   | .hasChild nm => (d.childrenOf n).any fun c => c.kind = .elem ∧ c.name = nm
+  | .index k => pos = k
+  | .last => pos = size
 
+/-- filter a candidate list (document order) by one predicate, with XPath's position()/last() -/
+def filterPred (d : Doc) (p : Pred) (cands : List CNode) : List CNode :=
+  let size := cands.length
+  (cands.zipIdx.filter fun (c, i) => evalPred d c (i + 1) size p).map (·.1)
+
+/-- does `n` pass the step: `n` satisfies the node test and survives the predicates applied in turn to the
+candidates of the step, i.e. its siblings (same parent, same axis) that satisfy the node test -/
 def stepOk (d : Doc) (st : Step) (n : CNode) : Bool :=
-  testNode st.test n && st.preds.all (evalPred d n)
+  testNode st.test n &&
+    (let sibs : List CNode :=
+        match d.parentOf n with
+        | some p => ((if n.kind = .attr then d.attrsOf p else d.childrenOf p).filter (testNode st.test))
+        | none => [n]
+     (st.preds.foldl (fun cands p => filterPred d p cands) sibs).any fun c => c.idx = n.idx)
 
 /-- `rsteps` = the steps right to left; `n` is tested against the head.  A node matches a pattern iff
 it is selected by the pattern from some ancestor-or-self context (XSLT 1.0 §5.2) — i.e. with full
@@ -260,22 +281,11 @@ def matchSteps (d : Doc) (absolute : Nat) : List Step → CNode → Bool
 def matchPath (d : Doc) (p : PathPat) (n : CNode) : Bool :=
   matchSteps d p.absolute p.steps.reverse n
 
-/-- What `XPath::getMatchScore` does when it is handed the *document node* (only `KeyTable` does that; template
-lookup selects root templates by node type): a pattern alternative whose last step is `node()` accepts it —
-`NodeTester::testNode` has no node-type restriction and the step loop stops at the top of the parent chain — as
-long as at most one step (counting a leading `/` or `//`) precedes it; predicates of the step are evaluated on
-the document node.  Observed on the real library (design/C15.md, finding 2); the specification matcher
-`matchPath` never matches the root with a `node()` step. -/
-def rootQuirk (d : Doc) (p : PathPat) (n : CNode) : Bool :=
-  n.kind = .root &&
-    (match p.steps.reverse with
-     | st :: _ => st.test = .node && st.preds.all (evalPred d n) &&
-         decide (p.steps.length + (if p.absolute = 0 then 0 else 1) ≤ 2)
-     | [] => false)
-
-/-- `quirk = true`: as the code behaves; `false`: XSLT 1.0 §5.2 -/
-def matchPattern (quirk : Bool) (d : Doc) (ps : List PathPat) (n : CNode) : Bool :=
-  ps.any fun p => matchPath d p n || (quirk && rootQuirk d p n)
+/-- XSLT 1.0 §5.2.  (Until /repo commit 64b58da `XPath::getMatchScore` accepted the *document node* for a pattern
+whose last step is `node()`; while that was so the driver carried the deviation as `rootQuirk` — see design/C15.md,
+finding 2.) -/
+def matchPattern (d : Doc) (ps : List PathPat) (n : CNode) : Bool :=
+  ps.any fun p => matchPath d p n
 
 /-! ### `use` expressions — the fragment the generator emits -/
 
@@ -365,10 +375,10 @@ def evalUse (d : Doc) (u : UseExpr) (n : CNode) : UseResult :=
 
 /-- a concrete `xsl:key`: expanded name + the two texts, closed over the documents so that it can serve
 as an abstract `KeyDecl` (a node knows its document, `CNode.doc`) -/
-def mkDecl (quirk : Bool) (docs : Nat → Doc) (name : String) (pat : List PathPat) (use : UseExpr) :
+def mkDecl (docs : Nat → Doc) (name : String) (pat : List PathPat) (use : UseExpr) :
     KeyDecl String CNode :=
   { name := name
-    isMatch := fun n => matchPattern quirk (docs n.doc) pat n
+    isMatch := fun n => matchPattern (docs n.doc) pat n
     use := fun n => evalUse (docs n.doc) use n }
 
 end XalanModel.C15.Concrete
